@@ -162,6 +162,7 @@ func (commander *Commander) exec(ctx context.Context, parameters Parameters, scr
 		// The account locks and the reference reservation (released by the
 		// deferred calls above) must cover the persistence of the log: until
 		// then the store does not reflect this transaction.
+		verifhook.Await(ctx, "exec.wait", done)
 		<-done
 
 		return chainedLog, done, nil
